@@ -74,6 +74,34 @@ Theorem C18_read_from_fail_stops : forall w pkt s kf m x, length pkt = 188 ->
 Proof. exact read_from_fail_stops. Qed.
 Print Assumptions C18_read_from_fail_stops.
 
+(* every writer oracle at once (also writers that report counts other than 188 without an error):
+   Write is the fold `w_spec` over the chunks (Proofs/WriterProofs.v: ask the oracle chunk by chunk,
+   stop at the first error, io.ErrShortWrite at the end if the counts add up to less than len p) *)
+Theorem C18_write_any_oracle : forall w pkt p, length pkt = 188 -> length p mod 188 = 0 ->
+  write w pkt p = Ok (w_spec w (full_chunks p) 0%Z 0 [] (zlen p)).
+Proof. exact write_spec. Qed.
+Print Assumptions C18_write_any_oracle.
+
+(* every writer oracle and every script, WITHOUT the hypothesis on the reader's error: ReadFrom is
+   the fold `rf_spec` over the chunks (Proofs/WriterReadFrom.v), with the reader's error passed
+   through `norm_err` (io.ErrUnexpectedEOF becomes io.EOF — the weakness stated below) *)
+Theorem C18_read_from_general : forall w pkt s, length pkt = 188 ->
+  read_from w pkt s
+  = Ok (rf_spec w (full_chunks (script_data s)) (tail (script_data s)) (norm_err (script_err s)) 0%Z 0 []).
+Proof. exact read_from_general. Qed.
+Print Assumptions C18_read_from_general.
+
+(* F2 (DESIGN section 7), re-established in Coq: ReadFrom as pinned in /repo before the repair
+   (Model/PacketWriter.v rf_loop_pinned: one Read per iteration) falsifies the fragmentation
+   clause: one packet arriving as two 94-byte reads is not delivered and invalid-length is
+   reported.  Replays on the real code: corpus/C18/f2.txt. *)
+Theorem C18_F2_pinned_refuted :
+  exists w s, (forall j c, w j c = (188%Z, None)) /\ script_err s = E.EOF /\
+    full_chunks (script_data s) = [script_data s] /\ tail (script_data s) = [] /\
+    read_from_pinned w pkt0 s = Ok (0%Z, Some E.InvalidPacketLength, []).
+Proof. exact f2_pinned_refuted. Qed.
+Print Assumptions C18_F2_pinned_refuted.
+
 (* C05 for these entry points: total for every slice / script and EVERY writer oracle *)
 Theorem C18_write_total : forall w pkt p, length pkt = 188 ->
   write w pkt p <> Panic /\ write w pkt p <> Diverge.
